@@ -61,14 +61,17 @@ func genYieldAcross() Gen {
 	}
 	return func(yield func(*Prog)) {
 		for _, b := range bs {
-			for _, depth := range []int{0, 1} {
+			for _, depth := range []int{0, 1, 2} {
 				for _, how := range []string{"create", "wrap"} {
 					for _, protect := range []bool{false, true} {
 						b, depth, how, protect := b, depth, how, protect
 						yield(&Prog{Family: "F-yieldacross", Shape: fmt.Sprintf("%s/depth%d/%s/protected=%v", b.name, depth, how, protect), Mk: func() *Block {
 							// yielder(a): yields ("in", a) and returns what the resume passes
 							var yielder Stat
-							if depth == 0 {
+							if depth == 2 {
+								// coroutine.yield itself is what the boundary calls (a Go function as the direct callee)
+								yielder = Local1("yielder", Dot(Name("coroutine"), "yield"))
+							} else if depth == 0 {
 								yielder = LocalFunc("yielder", Func(names("a"), false, Emit(Str("before-yield"), Name("a")), Local(names("r1", "r2"), y(Str("in"), Name("a"))), Emit(Str("after-yield"), Name("r1"), Name("r2")), Return(Name("r1"))))
 							} else {
 								yielder = LocalFunc("yielder", Func(names("a"), false, LocalFunc("deeper", Func(names("x"), false, Local1("keep", Name("x")), Local(names("r1", "r2"), y(Str("in"), Name("x"))), Return(Name("r1"), Name("keep")))), Local(names("q1", "q2"), CallN("deeper", Name("a"))), Emit(Str("after-yield"), Name("q1"), Name("q2")), Return(Name("q1"))))
